@@ -165,6 +165,9 @@ def sim_scenario(args):
         cfg.pop("nat", None)
         cfg.update(newargs=" icetcp=1 iceudp=0", loss=0, dup=0, lat=rng.choice([1, 5]), extra_opts=rng.choice([0, 2]))
     reliable = bool(cfg.get("extra_opts", 0) & 2)
+    # a fifth of the UDP sessions: a TURN server is added AFTER the remote candidates are known (late nice_agent_set_relay_info),
+    # so the relayed candidate is paired with existing remote candidates the moment it is created
+    late_relay = (not tcp) and rng.random() < 0.2
     s = None
     bad = []
     nlists = 0
@@ -174,7 +177,14 @@ def sim_scenario(args):
         s.op("net trace 0")
         steps = sc.signalling_steps(rng, cfg)
         last_role = {}
-        for st in steps + ["run 40", "run 100", "run 400", "run 1000", "runidle 20000"]:
+        if late_relay:
+            s.op("server 127.0.0.60:3478 turn aa user pass")
+        tail = ["run 40", "run 100", "run 400", "run 1000", "runidle 20000"]
+        if late_relay:
+            who = rng.choice("AB")
+            tail = ["run 40"] + [f"relay {who} 1 {c} 127.0.0.60:3478 user pass 0" for c in range(1, cfg["ncomp"] + 1)] + \
+                   ["run 30", "run 100", "run 400", "run 1000", "runidle 20000"]
+        for st in steps + tail:
             s.op(st)
             if tcp:
                 s.op("settle 40")
